@@ -10,7 +10,7 @@ not matter."""
 import ast
 
 from engine.astutil import src, call_name, dotted
-from engine.interp import (Const, Sym, SymStr, ListV, TupleV, DictV, ObjV, TypeV, ValueV, FuncV, Prim, NONE, Undecided, Raised, prov)
+from engine.interp import (Const, Sym, SymStr, ListV, TupleV, DictV, ObjV, TypeV, ValueV, FuncV, Prim, NONE, Undecided, Raised, PathLimit, prov)
 from engine.loader import AnalysisError
 from . import shape as S
 
@@ -34,6 +34,22 @@ META['text'] += ' pretty_repr reaches the pipeline with the same settings as pfo
 SETTINGS_MIN = 6
 
 
+def _stream_text(scale):
+    count, per_line, off = scale
+    lines = [['p '] * off]
+    k = off
+    while k < count:
+        lines.append(['%s ' % chr(97 + i) for i in range(per_line - 2)] + ['z'])
+        k += per_line
+    lines[-1].append(' end  ')
+    out = []
+    for i, ln in enumerate(lines):
+        if i:
+            out.append('\n  ')
+        out.append(''.join(ln).rstrip(' ') if ln else '')
+    return ''.join(out)
+
+
 def _sentinel_name(m):
     for name, vals in m.assigns.items():
         v = vals[-1]
@@ -43,10 +59,11 @@ def _sentinel_name(m):
 
 
 class Recorder:
-    def __init__(self, repo, concrete_render=False):
+    def __init__(self, repo, concrete_render=False, scale=None):
         self.repo = repo
         self.log = []
         self.concrete_render = concrete_render
+        self.scale = scale      # (items, items per line, offset): a long concrete sdoc stream
         self.streams = {}
         prims = {
             'python_to_sdocs': self.p_pipeline,
@@ -81,6 +98,18 @@ class Recorder:
         if self.concrete_render:
             mk = lambda cls, *args: it.construct(TypeV(cls), list(args), {}, None)
             ann = Const('<annotation>')
+            if self.scale:
+                # lines of per_line - 1 texts, all but the last of a line ending in a blank: wherever a consumer cuts the stream, some
+                # scale puts the cut between a text that ends in a blank and the next text of its line
+                count, per_line, off = self.scale
+                items = [Const('p ')] * off
+                while len(items) < count:
+                    items.append(mk('SLine', Const(2)))
+                    items.extend(Const('%s ' % chr(97 + i)) for i in range(per_line - 2))
+                    items.append(Const('z'))
+                items.append(Const(' end  '))
+                self.it.max_while = max(getattr(self.it, 'max_while', 64), 40 * len(items))
+                return ListV(items)
             return ListV([Const('ab'), Const(' '), mk('SLine', Const(2)), Const('c '), mk('SAnnotationPush', ann), Const('d'),
                           mk('SAnnotationPop', ann), Const('  '), mk('SLine', Const(4)), mk('SLine', Const(0)), Const('e')])
         return Sym('SDOCS#%d' % len(self.log))
@@ -304,6 +333,49 @@ def run(repo, rep):
     except Undecided as e:
         n += 1
         rep.undecided('C18.a', 'pformat-text-is-pprint-text', m.relpath, str(e))
+    # the same on sdoc streams longer than every size constant the entry points and the plain renderer compare against (and longer
+    # than a fixed small scale): a consumer that takes the stream in slices must still write the text of the whole
+    from engine import thresholds
+    mined, beyond = thresholds.mine([m, repo.module('render'), repo.module('utils')], most=5000)
+    rep.note('entry points: size constants read by __init__ / render / utils: %s' % ({k: v[:2] for k, v in mined.items()} or 'none'))
+    for T in sorted(set(mined) | {8}):
+        mism = None
+        und_ = None
+        cnt = 0
+        for per_line in (4, 5, 6, 7):
+            for off in (0, 1):
+                try:
+                    r1 = Recorder(repo, concrete_render=True, scale=(T + 9, per_line, off))
+                    p1 = r1.it.explore(m.funcs['pformat'], [Sym('OBJ')], {})
+                    r2 = Recorder(repo, concrete_render=True, scale=(T + 9, per_line, off))
+                    p2 = r2.it.explore(m.funcs['pprint'], [Sym('OBJ')], {'stream': Const('<STREAM>'), 'end': Const('<END>')})
+                except (Undecided, PathLimit) as e:
+                    und_ = str(e)
+                    continue
+                if len(p1) != 1 or len(p2) != 1 or p1[0].raised or p2[0].raised:
+                    und_ = 'the entry points fork / raise on a stream of %d sdocs' % (T + 9)
+                    continue
+                text = p1[0].value.v if isinstance(p1[0].value, Const) else None
+                written = r2.streams.get(repr('<STREAM>'), [])
+                wtext = ''.join(x.v for x in written) if all(isinstance(x, Const) and isinstance(x.v, str) for x in written) else None
+                if text is None or wtext is None:
+                    und_ = 'the text written for a stream of %d sdocs is not constant' % (T + 9)
+                    continue
+                # what the stream denotes: texts in order, line break + indentation, the last text of a line without trailing blanks
+                want = _stream_text(r1.scale)
+                cnt += 1
+                if wtext != text + '<END>' or text != want:
+                    i_ = next((i for i, (x, y) in enumerate(zip(wtext, want)) if x != y), min(len(wtext), len(want)))
+                    mism = ('on a stream of %d sdocs (lines of %d texts) pformat returns %d characters, pprint writes %d and the stream denotes %d; '
+                            'first difference of the written text at character %d: %r where the stream has %r' % (
+                                T + 9, per_line - 1, len(text), len(wtext) - 5, len(want), i_, wtext[max(0, i_ - 12):i_ + 8], want[max(0, i_ - 12):i_ + 8]))
+        n += 1
+        if mism:
+            rep.fail('C18.a', 'pformat-text-is-pprint-text[%d sdocs]' % (T + 9), m.relpath, mism)
+        elif und_ and not cnt:
+            rep.undecided('C18.a', 'pformat-text-is-pprint-text[%d sdocs]' % (T + 9), m.relpath, und_)
+        else:
+            rep.check(cnt >= 1, 'C18.a', 'pformat-text-is-pprint-text[%d sdocs]' % (T + 9), m.relpath, 'same text on %d long streams' % cnt, '', nontrivial=True)
     rep.floor('C18.a', n, 150)
     nb = check_merge(repo, rep, 'C18.b')
     rep.floor('C18.b:explicit-none', nb, SETTINGS_MIN)
